@@ -1291,4 +1291,41 @@ example : runG0 integerFromPrimitive (St ([0x00, 0x7F] ++ [0x05]) (some 2)) = .e
 example : runG0 unsignedFromPrimitive (St ([0x80] ++ []) (some 1)) = .error .content :=
   unsignedFromPrimitive_spec [0x80] []
 
+
+/-! ### `Ord` is a lawful total order (session 5) -/
+
+theorem int_compare_swap (m n : Int) : compare n m = (compare m n).swap := by
+  rcases Int.lt_trichotomy m n with h | h | h
+  · rw [Int.compare_eq_lt.mpr h, Int.compare_eq_gt.mpr h]; rfl
+  · subst h; simp
+  · rw [Int.compare_eq_gt.mpr h, Int.compare_eq_lt.mpr h]; rfl
+
+/-- C15 — `Ord` on arbitrary-size integers is a lawful total order: `cmp b a` is the reverse of
+`cmp a b`, `Less` is transitive, and `Equal` exactly where `==` holds (what sorting and ordered
+maps rely on). -/
+theorem cmp_swap (a b : Bytes) (ha : isMinimalTC a = true) (hb : isMinimalTC b = true) :
+    ∃ o, BigInt.cmp a b = .ok o ∧ BigInt.cmp b a = .ok o.swap :=
+  ⟨_, cmp_eq_value a b ha hb, by rw [cmp_eq_value b a hb ha, int_compare_swap]⟩
+
+theorem cmp_trans (a b c : Bytes) (ha : isMinimalTC a = true) (hb : isMinimalTC b = true)
+    (hc : isMinimalTC c = true) (h1 : BigInt.cmp a b = .ok .lt) (h2 : BigInt.cmp b c = .ok .lt) :
+    BigInt.cmp a c = .ok .lt := by
+  rw [cmp_eq_value a b ha hb] at h1
+  rw [cmp_eq_value b c hb hc] at h2
+  rw [cmp_eq_value a c ha hc]
+  injection h1 with h1; injection h2 with h2
+  have h1' := Int.compare_eq_lt.mp h1
+  have h2' := Int.compare_eq_lt.mp h2
+  rw [Int.compare_eq_lt.mpr (by omega)]
+
+theorem cmp_eq_iff_eq (a b : Bytes) (ha : isMinimalTC a = true) (hb : isMinimalTC b = true) :
+    BigInt.cmp a b = .ok .eq ↔ BigInt.eq a b = true := by
+  rw [cmp_eq_value a b ha hb, eq_iff_value a b ha hb]
+  constructor
+  · intro h; injection h with h; exact Int.compare_eq_eq.mp h
+  · intro h; rw [Int.compare_eq_eq.mpr h]
+
+example : isMinimalTC [0xFF, 0x7F] = true ∧ isMinimalTC [0x80] = true
+    ∧ BigInt.cmp [0xFF, 0x7F] [0x80] = .ok .lt := ⟨rfl, rfl, rfl⟩
+
 end Bcder.Props.C15
